@@ -1,5 +1,5 @@
 (* Property C06 — Apply computes each destination cell from the same row and changes nothing else. *)
-From QF Require Import Base.Prelude Model.Frame Model.Filter Model.Ops Model.TableSpec Proofs.OpsProofs.
+From QF Require Import Base.Prelude Model.Frame Model.Filter Model.Ops Model.TableSpec Proofs.OpsProofs Proofs.OpsProofs2.
 Local Open Scope nat_scope.
 
 (* Apply with a one argument function func(T) U, for EVERY duplicate-free row index over existing positions
@@ -67,3 +67,262 @@ Example C06_premises_satisfiable :
      = Ok (mkFrame [([65%N], ICol [10; 20; 30; 40]%Z); ([66%N], SCol [None; None; Some [51%N]; Some [52%N]])] [2; 0; 3] false).
 Proof. exact apply1_example. Qed.
 Print Assumptions C06_premises_satisfiable.
+
+(* ================================================================== wave 2 *)
+
+(* Apply with a two argument function func(T, T) T, for EVERY duplicate-free row index over existing positions:
+   the destination column has the function's type, holds fn(src1[r], src2[r]) for every row r of the frame in
+   frame order, and the zero value at every physical position that is not a row of the frame. *)
+Theorem C06_apply2 f t tbl dst src1 src2 c1 c2 vals :
+  ferr f = false -> lookup_col f src1 = Some c1 -> lookup_col f src2 = Some c2 ->
+  col_type c1 = col_type c2 -> ctype_eqb (col_ftype c1) t = true ->
+  NoDup (ix f) -> Forall (fun p => p < col_len c1) (ix f) ->
+  omap (fun p => do x <- cell_at c1 p; do y <- cell_at c2 p; tbl2 tbl x y) (ix f) = Ok vals ->
+  Forall (fun y => cell_type_ok t y = true) vals ->
+  exists r, apply2 f (F2 t tbl) dst src1 src2 = Ok (set_column f dst r)
+    /\ col_type r = t /\ col_len r = col_len c1
+    /\ omap (cell_at r) (ix f) = Ok vals
+    /\ (forall q, q < col_len c1 -> ~ In q (ix f) -> cell_at r q = Ok (zero_cell t)).
+Proof. exact (apply2_spec f t tbl dst src1 src2 c1 c2 vals). Qed.
+Print Assumptions C06_apply2.
+
+(* unknown sources, sources of two different types, or a function of another type: Err, and the frame as it was *)
+Theorem C06_apply2_rejects f fn dst src1 src2 :
+  ferr f = false ->
+  (lookup_col f src1 = None \/ lookup_col f src2 = None
+   \/ (exists c1 c2, lookup_col f src1 = Some c1 /\ lookup_col f src2 = Some c2
+       /\ (col_type c1 <> col_type c2 \/ (forall t tbl, fn = F2 t tbl -> ctype_eqb (col_ftype c1) t = false)))) ->
+  apply2 f fn dst src1 src2 = Ok (with_err f).
+Proof. exact (apply2_rejects f fn dst src1 src2). Qed.
+Print Assumptions C06_apply2_rejects.
+
+(* func() T: the value of the k-th call belongs to the k-th row IN FRAME ORDER (not to physical position k);
+   values the function would produce after the last row are not asked for; zero outside the index. *)
+Theorem C06_apply0_stream f t vals dst :
+  ferr f = false -> t <> TEnum -> NoDup (ix f) -> Forall (fun p => p < phys_len f) (ix f) ->
+  length (ix f) <= length vals -> Forall (fun y => cell_type_ok t y = true) vals ->
+  exists r, apply0 f (F0Stream t vals) dst = Ok (set_column f dst r)
+    /\ col_type r = t /\ col_len r = phys_len f
+    /\ omap (cell_at r) (ix f) = Ok (firstn (length (ix f)) vals)
+    /\ (forall q, q < phys_len f -> ~ In q (ix f) -> cell_at r q = Ok (zero_cell t)).
+Proof. exact (apply0_stream_spec f t vals dst). Qed.
+Print Assumptions C06_apply0_stream.
+
+(* a constant (int, float64, bool, *string, string) is written to EVERY physical position, also to those that
+   are not rows of the frame: under FilteredApply the rows that do not match get the constant, not the zero value
+   (a deviation from the statement's text, see the report). *)
+Theorem C06_apply0_const f c dst :
+  ferr f = false -> (forall s, c <> CEnum s) ->
+  exists r, apply0 f (F0Const c) dst = Ok (set_column f dst r)
+    /\ col_type r = const_type c /\ col_len r = phys_len f
+    /\ (forall q, q < phys_len f -> cell_at r q = Ok c).
+Proof. exact (apply0_const_spec f c dst). Qed.
+Print Assumptions C06_apply0_const.
+
+(* setColumn on the physical frame IS tset_col on the logical table: replace in position or append last, the
+   new column contributing exactly its cells read through the index *)
+Theorem C06_set_column_table f t name r cells :
+  abs f = Ok t -> check_name name = true -> omap (cell_at r) (ix f) = Ok cells ->
+  abs (set_column f name r) = Ok (tset_col t name (col_type r) cells).
+Proof. exact (abs_set_column f t name r cells). Qed.
+Print Assumptions C06_set_column_table.
+
+(* every well-formed frame (Model/Frame.v wf_frame: what the engine checks on every dumped frame) denotes a table *)
+Theorem C06_abs_total f : wf_frame f = true -> exists t, abs f = Ok t.
+Proof. exact (abs_total f). Qed.
+Print Assumptions C06_abs_total.
+
+(* ONE INSTRUCTION of every kind against the table-level specification tapply_instr (Model/TableSpec.v, the
+   oracle of the frameops engine), for every well-formed frame with a duplicate-free index (fr_ok):
+   - specification = a table t'  : the model returns a well-formed frame without Err over the SAME index that
+                                   denotes t' (constant / copy / k-th stream value / fn(src1[r]) / fn(src1[r], src2[r])
+                                   in the destination, replaced in position or appended last, all else as before);
+   - specification = invalid     : (unknown source, unsupported signature, type mismatch, enum-typed result,
+                                   illegal destination name) the model returns the frame with Err set — the only
+                                   other possibility, with an illegal destination name, being a fault of a
+                                   recorded function table that does not cover its arguments (not a behaviour
+                                   of the implementation);
+   - specification = open        : built-in function names, function tables that do not cover the cells, streams
+                                   shorter than the frame: nothing is claimed.
+   afn_wf: the recorded function's results have the declared (non-enum) type, as Go's static types guarantee. *)
+Theorem C06_instr ut f t i :
+  ferr f = false -> fr_ok f -> abs f = Ok t -> afn_wf (ifn i) = true ->
+  match tapply_instr t i with
+  | Some (Some t') =>
+      exists g, apply_instr ut f i = Ok g /\ ferr g = false /\ ix g = ix f /\ abs g = Ok t' /\ wf_frame g = true
+                /\ phys_len g = phys_len f
+  | Some None => True
+  | None => apply_instr ut f i = Ok (with_err f) \/ (apply_instr ut f i = Panic /\ check_name (idst i) = false)
+  end.
+Proof. exact (apply_instr_abs ut f t i). Qed.
+Print Assumptions C06_instr.
+
+(* INSTRUCTION LISTS, by induction: Apply(i1 .. in) denotes the left fold of tapply_instr — every instruction
+   sees the table left by the earlier ones (overwritten sources included); the first invalid instruction makes
+   the whole result Err. tapply_prog is literally the fold the engine's FApply oracle evaluates. *)
+Theorem C06_program ut is f t :
+  ferr f = false -> fr_ok f -> abs f = Ok t -> forallb (fun i => afn_wf (ifn i)) is = true ->
+  match tapply_prog t is with
+  | Some (Some t') =>
+      exists g, apply ut f is = Ok g /\ ferr g = false /\ ix g = ix f /\ abs g = Ok t' /\ wf_frame g = true
+                /\ phys_len g = phys_len f
+  | Some None => True
+  | None => (exists g, apply ut f is = Ok g /\ ferr g = true /\ ix g = ix f) \/ apply ut f is = Panic
+  end.
+Proof. exact (apply_prog_abs ut is f t). Qed.
+Print Assumptions C06_program.
+
+(* columns no instruction names as destination are the same physical columns in the same positions *)
+Theorem C06_program_other_columns ut is f g m :
+  apply ut f is = Ok g -> ferr g = false ->
+  (forall i, In i is -> bytes_eqb (idst i) m = false) -> lookup g m = lookup f m.
+Proof. exact (apply_other_cols ut is f g m). Qed.
+Print Assumptions C06_program_other_columns.
+
+(* FILTEREDAPPLY.  Premise: what C02_clause_tree proves about the filter — it returns the frame over the sub-list
+   of the index selected by a row predicate keep.  Then, restricted to the matching rows, FilteredApply IS the
+   whole Apply program on the table of the matching rows (tkeep), the original row index is put back, the frame
+   is well formed; an invalid program gives Err. *)
+Theorem C06_filtered_matching mt ut f c is t keep :
+  ferr f = false -> fr_ok f -> abs f = Ok t -> forallb (fun i => afn_wf (ifn i)) is = true ->
+  frame_filter mt f c = Ok (with_ix f (filter keep (ix f))) ->
+  match tapply_prog (tkeep keep (ix f) t) is with
+  | Some (Some t') =>
+      exists g, filtered_apply mt ut f c is = Ok g /\ ferr g = false /\ ix g = ix f /\ wf_frame g = true
+                /\ abs (with_ix g (filter keep (ix f))) = Ok t'
+  | Some None => True
+  | None => (exists g, filtered_apply mt ut f c is = Ok g /\ ferr g = true) \/ filtered_apply mt ut f c is = Panic
+  end.
+Proof. exact (filtered_apply_matching mt ut f c is t keep). Qed.
+Print Assumptions C06_filtered_matching.
+
+(* ... every column that is not a destination is the same physical column in the same position: all of its rows,
+   matching or not, are as they were; the row index is the original one (no premise on the filter) *)
+Theorem C06_filtered_other_columns mt ut f c is g m :
+  filtered_apply mt ut f c is = Ok g -> ferr g = false ->
+  (forall i, In i is -> bytes_eqb (idst i) m = false) ->
+  ix g = ix f /\ lookup g m = lookup f m.
+Proof. exact (filtered_apply_others mt ut f c is g m). Qed.
+Print Assumptions C06_filtered_other_columns.
+
+(* ... and a clause that cannot be evaluated gives the filter's Err frame; no instruction runs *)
+Theorem C06_filtered_filter_err mt ut f c is ff :
+  frame_filter mt f c = Ok ff -> ferr ff = true -> filtered_apply mt ut f c is = Ok ff.
+Proof. exact (filtered_apply_filter_err mt ut f c is ff). Qed.
+Print Assumptions C06_filtered_filter_err.
+
+(* ... and THE ROWS THAT DO NOT MATCH: for a program of user functions, constants and copies (no built-in function
+   names), in the destination column of every function instruction (func() T, func(T) U, func(T, T) T) that no later
+   instruction overwrites, every row of the frame that does not match the clause holds the ZERO VALUE of the
+   function's result type (0, 0.0, false, null string).  fun_instr i = Some ty: i calls a user function with
+   result type ty.  [Constants are different: C06_apply0_const — they reach every row.] *)
+Theorem C06_filtered_zero mt ut f c is keep g :
+  ferr f = false -> fr_ok f ->
+  forallb (fun i => afn_wf (ifn i) && no_builtin (ifn i)) is = true ->
+  frame_filter mt f c = Ok (with_ix f (filter keep (ix f))) ->
+  filtered_apply mt ut f c is = Ok g -> ferr g = false ->
+  forall pre i post ty, is = pre ++ i :: post ->
+    (forall j, In j post -> bytes_eqb (idst j) (idst i) = false) ->
+    fun_instr i = Some ty ->
+    exists r, lookup_col g (idst i) = Some r /\ col_type r = ty
+              /\ forall q, In q (ix f) -> keep q = false -> cell_at r q = Ok (zero_cell ty).
+Proof. exact (filtered_apply_zero mt ut f c is keep g). Qed.
+Print Assumptions C06_filtered_zero.
+
+(* the same for Apply itself, as a statement about physical positions outside the row index, together with the
+   invariants every instruction keeps (well-formedness, row index, physical length) *)
+Theorem C06_program_zero_outside ut is f g :
+  apply ut f is = Ok g -> ferr f = false -> ferr g = false -> fr_ok f ->
+  forallb (fun i => afn_wf (ifn i) && no_builtin (ifn i)) is = true ->
+  (fr_ok g /\ ix g = ix f /\ phys_len g = phys_len f) /\
+  forall pre i post ty, is = pre ++ i :: post ->
+    (forall j, In j post -> bytes_eqb (idst j) (idst i) = false) ->
+    fun_instr i = Some ty -> zero_outside g (ix f) (idst i) ty.
+Proof. exact (apply_zero_outside ut is f g). Qed.
+Print Assumptions C06_program_zero_outside.
+
+(* Non-vacuity of C06_instr / C06_program / C06_filtered_matching: a frame whose index is a rotated strict subset;
+   a program whose first instruction overwrites its own source, whose second reads the overwritten column, with a
+   null string constant replacing a column in position, a func() stream with a surplus value and a column copy. *)
+Definition ex2_frame : frame :=
+  mkFrame [([65%N], ICol [10; 20; 30; 40]%Z); ([66%N], ICol [1; 2; 3; 4]%Z); ([83%N], SCol [Some [120%N]; None; Some []; None])]
+          [2; 0; 3] false.
+Definition ex2_prog : list instr :=
+  [ mkInstr (F2 TInt [((CInt 30, CInt 3), CInt 33); ((CInt 10, CInt 1), CInt 11); ((CInt 40, CInt 4), CInt 44)]%Z) [65%N] [65%N] [66%N];
+    mkInstr (F1 TInt TString [(CInt 33, CStr (Some [51%N])); (CInt 11, CStr None); (CInt 44, CStr (Some []))]%Z) [67%N] [65%N] [];
+    mkInstr (F0Const (CStr None)) [66%N] [] [];
+    mkInstr (F0Stream TInt [CInt 7; CInt 8; CInt 9; CInt 10]%Z) [68%N] [] [];
+    mkInstr (F0ColName [67%N]) [69%N] [] [] ].
+Definition ex2_table : table :=
+  mkTable [[65%N]; [66%N]; [83%N]] [TInt; TInt; TString]
+          [[CInt 30; CInt 3; CStr (Some [])]; [CInt 10; CInt 1; CStr (Some [120%N])]; [CInt 40; CInt 4; CStr None]]%Z.
+
+Example C06_program_premises_satisfiable :
+  ferr ex2_frame = false /\ fr_ok ex2_frame /\ abs ex2_frame = Ok ex2_table
+  /\ forallb (fun i => afn_wf (ifn i)) ex2_prog = true
+  /\ tapply_prog ex2_table ex2_prog
+     = Some (Some (mkTable [[65%N]; [66%N]; [83%N]; [67%N]; [68%N]; [69%N]]
+                           [TInt; TString; TString; TString; TInt; TString]
+                           [[CInt 33; CStr None; CStr (Some []); CStr (Some [51%N]); CInt 7; CStr (Some [51%N])];
+                            [CInt 11; CStr None; CStr (Some [120%N]); CStr None; CInt 8; CStr None];
+                            [CInt 44; CStr None; CStr None; CStr (Some []); CInt 9; CStr (Some [])]]%Z))
+  /\ tapply_prog (tkeep (fun p => Nat.eqb p 0 || Nat.eqb p 3) (ix ex2_frame) ex2_table) ex2_prog
+     = Some (Some (mkTable [[65%N]; [66%N]; [83%N]; [67%N]; [68%N]; [69%N]]
+                           [TInt; TString; TString; TString; TInt; TString]
+                           [[CInt 11; CStr None; CStr (Some [120%N]); CStr None; CInt 7; CStr None];
+                            [CInt 44; CStr None; CStr None; CStr (Some []); CInt 8; CStr (Some [])]]%Z)).
+Proof.
+  split; [reflexivity|]. split; [split; [vm_compute; reflexivity|]|].
+  - simpl. repeat constructor; simpl; intuition lia.
+  - split; [vm_compute; reflexivity|]. split; [vm_compute; reflexivity|]. split; vm_compute; reflexivity.
+Qed.
+Print Assumptions C06_program_premises_satisfiable.
+
+(* the error side: an unknown source, a signature mismatch and an illegal destination name are all "invalid" *)
+Example C06_instr_invalid_examples :
+  tapply_instr ex2_table (mkInstr (F1 TInt TInt []) [67%N] [90%N] []) = None
+  /\ tapply_instr ex2_table (mkInstr (F1 TString TInt []) [67%N] [65%N] []) = None
+  /\ tapply_instr ex2_table (mkInstr (F2 TInt []) [67%N] [65%N] [83%N]) = None
+  /\ tapply_instr ex2_table (mkInstr (F0Const (CInt 1)) [36%N; 65%N] [] []) = None
+  /\ tapply_instr ex2_table (mkInstr (F0ColName [36%N; 65%N]) [36%N; 65%N] [] []) = None.
+Proof. repeat split; vm_compute; reflexivity. Qed.
+
+(* Non-vacuity of the FilteredApply theorems: the clause A < 35 on ex2_frame keeps the rows at positions 2 and 0
+   (the premise on the filter holds by computation); the function column gets the null string in the row that
+   does not match (position 3) — and the constant column gets the CONSTANT there, not the zero value. *)
+Definition ex2_clause : clause := CLeaf (mkLeaf [65%N] (CmpName (bs 1 0x3c)) (AInt 35) false).
+Definition ex2_fprog : list instr :=
+  [ mkInstr (F1 TInt TString [(CInt 10, CStr (Some [51%N])); (CInt 30, CStr (Some []))]%Z) [67%N] [65%N] [];
+    mkInstr (F0Const (CInt 7)) [68%N] [] [] ].
+
+Example C06_filtered_premises_satisfiable :
+  let keep := fun p => Nat.ltb p 3 in
+  frame_filter [] ex2_frame ex2_clause = Ok (with_ix ex2_frame (filter keep (ix ex2_frame)))
+  /\ forallb (fun i => afn_wf (ifn i) && no_builtin (ifn i)) ex2_fprog = true
+  /\ fun_instr (mkInstr (F1 TInt TString [(CInt 10, CStr (Some [51%N])); (CInt 30, CStr (Some []))]%Z) [67%N] [65%N] [])
+     = Some TString
+  /\ filtered_apply [] [] ex2_frame ex2_clause ex2_fprog
+     = Ok (mkFrame [([65%N], ICol [10; 20; 30; 40]%Z); ([66%N], ICol [1; 2; 3; 4]%Z);
+                    ([83%N], SCol [Some [120%N]; None; Some []; None]);
+                    ([67%N], SCol [Some [51%N]; None; Some []; None]);
+                    ([68%N], ICol [7; 7; 7; 7]%Z)] [2; 0; 3] false).
+Proof. cbv zeta. repeat split; vm_compute; reflexivity. Qed.
+
+(* NOT PROVED (decided per case by the frameops engine's exact model comparison only): built-in function names.
+   The table-level specification leaves them open (tapply_instr = Some None).  The statement for the one built-in
+   the model implements, ToUpper on string and enum columns, with the upper-casing itself given by the oracle
+   table ut (property C18): *)
+Definition upper_cell (ut : upper_table) (x : cell) : outcome cell :=
+  match x with
+  | CStr (Some s) => do u <- upper_of ut s; Ok (CStr (Some u))
+  | CEnum (Some s) => do u <- upper_of ut s; Ok (CEnum (Some u))
+  | other => Ok other
+  end.
+Definition C06_builtin_full_statement : Prop :=
+  forall ut f t dst src ty cells out,
+    ferr f = false -> fr_ok f -> abs f = Ok t -> check_name dst = true ->
+    tcolumn t src = Some (ty, cells) -> (ty = TString \/ ty = TEnum) ->
+    omap (upper_cell ut) cells = Ok out ->
+    (forall c s, lookup_col f src = Some c -> In s (match c with ECol _ vs _ => vs | _ => [] end) -> upper_of ut s <> Panic) ->
+    exists g, apply_instr ut f (mkInstr (FBuiltin name_ToUpper) dst src []) = Ok g /\ ferr g = false
+              /\ ix g = ix f /\ abs g = Ok (tset_col t dst ty out).
